@@ -63,6 +63,7 @@ func c12Case(c *core.Ctx) {
 			st0 = append(st0, c.R.LogRange(1e-3, 1e6))
 		}
 	}
+	steadyRemob := false
 	dt := 86400.0
 	for _, n := range []string{"DeltaT", "durationInSeconds"} {
 		if paramIndex(desc, n) >= 0 {
@@ -86,6 +87,19 @@ func c12Case(c *core.Ctx) {
 		}
 		st0[0], st0[1] = 0, 0
 	}
+	if model == "InstreamFineSediment" && get("bankFullFlow") > 0 && c.R.Bool(0.25) {
+		// steady low flow that keeps picking sediment up from a small channel store until it is gone: the same
+		// outflow and the same incoming load step after step while the store changes
+		o := get("bankFullFlow") * c.R.Range(0.05, 0.9)
+		v := pick(c.R, 0, 0, c.R.Range(0, 1e3))
+		l := pick(c.R, 0, c.R.LogRange(1e-4, 1))
+		for t := 0; t < T; t++ {
+			in[iIn("outflow")][t], in[iIn("reachVolume")][t] = o, v
+			in[iIn("upstreamMass")][t], in[iIn("lateralMass")][t], in[iIn("reachLocalMass")][t] = l, 0, 0
+		}
+		st0[0], st0[1] = c.R.LogRange(1, 1e5), 0
+		steadyRemob = true
+	}
 	if model == "InstreamFineSediment" && get("bankFullFlow") > 0 && st0[0] != 0 {
 		// channel store within its capacity
 		maxStorage := get("propBankHeightForFineDep") * get("bankHeight") * get("linkWidth") * get("linkLength") * get("sedBulkDensity") * 1e3
@@ -107,6 +121,11 @@ func c12Case(c *core.Ctx) {
 	if model == "StorageTrapAll" && len(st0) > 0 {
 		trapAllIn = st0[0]
 	}
+	if steadyRemob {
+		c.Tag("InstreamFineSediment:steady-remobilisation-scenario")
+	}
+	chained := make([][]float64, len(desc.Outputs))
+	stepsDone := 0
 	for t := 0; t < T; t++ {
 		seg := &MRun{Model: model, N: 1, T: 1, Sets: run.Sets, Inputs: sliceT(run.Inputs, t, t+1), States: st}
 		so, err := Execute(seg)
@@ -114,6 +133,10 @@ func c12Case(c *core.Ctx) {
 			c.Violate("prepare", model, err.Error())
 			return
 		}
+		for j := range chained {
+			chained[j] = append(chained[j], so.Out[0][j][0])
+		}
+		stepsDone = t + 1
 		ov := func(n string) float64 {
 			i := indexOf(desc.Outputs, n)
 			if i < 0 {
@@ -298,6 +321,30 @@ func c12Case(c *core.Ctx) {
 		st = so.States
 		if len(c.Res.Violations) >= 3 {
 			break
+		}
+	}
+	// The balance above was observed one step per call (to see the stores after every step). The same period simulated
+	// in ONE call must report the same loads and end with the same stores, otherwise the mass that the single call sends
+	// downstream / deposits / keeps differs from the balanced one.
+	if stepsDone == T && len(c.Res.Violations) == 0 {
+		whole := &MRun{Model: model, N: 1, T: T, Sets: run.Sets, Inputs: run.Inputs, States: [][]float64{append([]float64{}, st0...)}}
+		if wo, err := Execute(whole); err == nil {
+			c.Count("whole_run_comparisons", 1)
+		cmp:
+			for j, n := range desc.Outputs {
+				for t := 0; t < T; t++ {
+					a, b := wo.Out[0][j][t], chained[j][t]
+					if !core.RelClose(a, b, 1e-9, 1e-9*runScale/dt+1e-12) {
+						c.Violate("whole-run-differs-from-stepwise", model, fmt.Sprintf("output %s at t=%d: %v when the %d steps are simulated in one call, %v step by step (where the mass balance closes at every step)", n, t, a, T, b))
+						break cmp
+					}
+				}
+			}
+			for j := range st[0] {
+				if a, b := wo.States[0][j], st[0][j]; !core.RelClose(a, b, 1e-9, 1e-9*runScale+1e-12) && len(c.Res.Violations) == 0 {
+					c.Violate("whole-run-differs-from-stepwise", model, fmt.Sprintf("final state %d: %v after one call over %d steps, %v step by step", j, a, T, b))
+				}
+			}
 		}
 	}
 	if model == "StorageTrapAll" {
